@@ -309,6 +309,9 @@ func (e *Engine) resolve(self int) func(string) any {
 			if len(t) == 0 {
 				return bogusID(n)
 			}
+			if n < 0 {
+				return t[len(t)-1].ID // the latest
+			}
 			return t[n%len(t)].ID
 		}
 		switch parts[0] {
